@@ -61,7 +61,9 @@ class Unusable(Exception):
 
 class Stalled(Exception):
     """the implementation made no progress within a generous bound: reported as an observation, judged by the oracle"""
-OUTCOMES = ['ok', 'unconvertible', 'send_exc', 'send_base', 'dies_exc', 'dies_base']
+OUTCOMES = ['ok', 'unconvertible', 'send_exc', 'send_base', 'dies_exc', 'dies_base', 'meta_exc']
+# dies_exc: building SnapshotServiceStub(channel) raises (the fake channel's unary_unary); meta_exc: grpc.metadata()
+# raises while the arguments of stub.send are evaluated — both after a successful conversion, both without a send
 
 
 class SendError(Exception):
@@ -251,6 +253,10 @@ class Grpc:
         self.channel = channel
 
     def metadata(self):
+        b = getattr(self.channel, 'bench', None)
+        k = b.current_snapshot() if b is not None else None
+        if k is not None and b.outcomes[k] == 'meta_exc':
+            raise SendError('no credentials')            # before `send` is entered
         return []
 
 
@@ -858,6 +864,8 @@ def run_submitters(case):
     while the handler is open (their tasks are then run), then the real TaskHandler.flush() closes it, then every
     `after` op hands work to the handler through one of the in-tree submitters.  Per op: what the caller saw."""
     import svcbench
+    if case.get('no_handler'):
+        return run_no_handler(case)
     b = svcbench.SvcBench()
     out = {'before': [], 'after': [], 'degraded': list(b.degraded)}
     try:
@@ -918,7 +926,47 @@ def run_submitters(case):
         b.close()
 
 
+def run_no_handler(case):
+    """a REAL TracepointConfigService that was never given a task handler (not reachable through Deep): what its
+    submitter does with a configuration update — observation, compared with the model, not judged"""
+    from deep.config.tracepoint_config import TracepointConfigService, ConfigUpdateListener
+    told = []
+
+    class L(ConfigUpdateListener):
+        def config_change(self, ts, old_hash, current_hash, old_config, new_config):
+            told.append(ts)
+    svc = TracepointConfigService()
+    svc.add_listener(L())
+    out = {'before': [], 'after': []}
+    ids = []
+    for op in case['after']:
+        r = {'op': op['op'], 'accepted': 0}
+        n = len(told)
+        with _Records() as rec:
+            try:
+                if op['op'] == 'register':
+                    ids.append(svc.add_custom('a.py', 10, {}, [op.get('tag', 'w')], []))
+                elif op['op'] == 'unregister':
+                    if ids:
+                        svc.remove_custom(ids.pop())
+                    else:
+                        r['skipped'] = True
+                else:
+                    svc.update_new_config(op.get('ts', 1), op.get('hash', 'h'), [])
+            except BaseException as e:  # noqa: B902
+                r['raised'] = type(e).__name__
+                r['raised_is_exception'] = isinstance(e, Exception)
+            r['logs'] = list(rec.got)
+        r['told'] = len(told) - n
+        out['after'].append(r)
+    return out
+
+
 def gen_submitters(rng):
+    if rng.random() < 0.1:
+        return {'mode': 'submitters', 'no_handler': True, 'before': [],
+                'after': [{'op': rng.choice(['register', 'register', 'unregister', 'update_new_config']),
+                           'tag': 'n%d' % i, 'hash': 'n%d' % i, 'ts': i} for i in range(rng.randint(1, 4))]}
     before, after, regs = [], [], 0
     for _ in range(rng.randint(0, 3)):
         k = rng.choice(['register', 'register', 'poll_update', 'push', 'update_new_config'])
@@ -947,8 +995,8 @@ def submit_visibility(r):
 
 def oracle_submitters(case, obs):
     v = []
-    if obs.get('bench_error'):
-        return v
+    if obs.get('bench_error') or case.get('no_handler'):
+        return v          # no handler at all: not reachable through Deep — observed and compared, not judged
     if 'flush_raised' in obs:
         v.append(f'flush() raised {obs["flush_raised"]}')
     for op, r in zip(case['before'], obs['before']):
@@ -1241,6 +1289,10 @@ def corpus():
         # the executor refuses the second push (its id is used up), the others are delivered once; refused again after close
         {'mode': 'det', 'outcomes': ['ok', 'ok', 'send_exc', 'ok'],
          'sched': [P, {'s': 'pushRejected'}, P, st(1), st(2), F, fi(2), fi(1), cb(1), cb(2), {'s': 'pushRejected'}]},
+        # a TracepointConfigService without any task handler: updates are dropped silently (observed, not judged)
+        {'mode': 'submitters', 'no_handler': True, 'before': [],
+         'after': [{'op': 'register', 'tag': 'n0'}, {'op': 'update_new_config', 'hash': 'n1', 'ts': 1},
+                   {'op': 'unregister'}]},
         # every in-tree submitter after close: push, register, unregister, a late poll UPDATE, update_new_config
         {'mode': 'submitters', 'before': [{'op': 'register', 'tag': 'w0'}, {'op': 'poll_update', 'hash': 'h1', 'ts': 1}],
          'after': [{'op': 'push'}, {'op': 'register', 'tag': 'late'}, {'op': 'unregister', 'handle': 0},
@@ -1430,7 +1482,8 @@ def pool_model_sched(case):
 def model_request(case, obs):
     if case['mode'] == 'submitters':
         return {'submitters': [{'func': SUBMITTER_OF[op['op']], 'open': True} for op in case['before']] +
-                              [{'func': SUBMITTER_OF[op['op']], 'open': False} for op in case['after']]}
+                              [{'func': SUBMITTER_OF[op['op']], 'open': False, 'no_handler': bool(case.get('no_handler'))}
+                               for op in case['after']]}
     if case.get('park_flush') or case.get('flush1_times_out') or any(st['s'] == 'flush2Begin' for st in case['sched']):
         return None      # flush parked inside its own bookkeeping / two callers of flush / a wait that timed out:
         #                  no such region in the model — judged by the oracle
@@ -1509,9 +1562,10 @@ def compare(case, obs, resp):
 
 def _features(case):
     if case['mode'] == 'submitters':
-        return {'after-close/' + '+'.join(sorted({op['op'] for op in case['after']}))}
+        return {('no-handler/' if case.get('no_handler') else 'after-close/') +
+                '+'.join(sorted({op['op'] for op in case['after']}))}
     outs = accepted_outcomes(case, None)
-    fails = {i + 1 for i, o in enumerate(outs) if o in ('send_exc', 'send_base', 'dies_exc', 'dies_base')}
+    fails = {i + 1 for i, o in enumerate(outs) if o in ('send_exc', 'send_base', 'dies_exc', 'dies_base', 'meta_exc')}
     closed = False
     fin = set()
     feats = set()
